@@ -15,15 +15,18 @@ C09_CITED = ["tables_agree", "assoc_agrees", "ternary_level", "unary_tables_agre
              "roundtrip_block_partial", "roundtrip_decl_partial", "negative_literal_binds_like_minus", "source_fingerprints"]
 TEXT_THEOREMS = ["right_nested_chain_regrouped_changes_meaning"]
 DUP_THEOREMS = ["dup_sites_guarded", "guard_rows_are_ir_constructors", "repeatable_operand_is_pure_of_sound", "repeatable_operand_is_pure",
-                "struct_cast_meaning_kept", "struct_cast_refuses_iff", "wf_toD", "repeatable_operand_is_pure_ir_of_sound",
-                "repeatable_operand_is_pure_ir", "index_blind_test_repeats_effect"]
+                "struct_cast_meaning_kept", "struct_cast_clauses", "struct_cast_refuses_iff", "tested_operand_is_pure_of_sound",
+                "rem_assign_operands_are_pure", "wf_toD", "repeatable_operand_is_pure_ir_of_sound",
+                "repeatable_operand_is_pure_ir", "rem_assign_operands_are_pure_ir", "index_blind_test_repeats_effect"]
 VEC_THEOREMS = ["msl_exporter_vec_shape_as_modelled", "msl_swizzle_letters_are_identity", "msl_vector_type_names_roundtrip",
                 "vec1_is_named_as_scalar", "vec_shape_sound", "gen_sem_msl_vec_expr", "gen_sem_msl_vec_assign", "msl_vector_op_literal_in_concrete_type",
                 "literal_vector_cast_panics_msl",
-                "mulMV_toMetal", "ctor_from_scalars_transposes", "metal_subscript_is_a_column", "narrowing_to_vec1_is_not_metal"]
+                "mulMV_toMetal", "ctor_from_scalars_transposes", "metal_subscript_is_a_column",
+                "cast_to_vec1_selects_first_component", "msl_float_remainder_assignment_keeps_meaning"]
 SEM_THEOREMS = ["msl_exporter_shape_as_modelled", "msl_op_table_is_identity", "msl_literal_arms_same_as_hlsl", "msl_genLiteral_eq", "msl_literal_never_panics",
                 "gen_sem_expr", "gen_sem_expr_plain", "gen_sem_args", "gen_sem_stmt", "gen_sem_stmts", "gen_sem_func",
                 "trampoline_copy_semantics", "gen_sem_program", "ir_frame", "gen_sem_signatures",
+                "float_remainder_assignment_exported",
                 "int_min_literal_changes_meaning", "literal_arithmetic_changes_meaning", "inout_copy_in_order_changes_meaning"]
 
 POSITIONS = ["xs", "vi", "ai", "bl", "ic", "ib", "ec", "et", "ee", "fi", "fd", "fc", "fa", "fb", "wc", "wb", "db", "dc",
